@@ -79,13 +79,17 @@ def run(ctx):
             what = 'tokens %s -> message %s: UnmarshalPayload ok=%s %s' % (
                 [(t['lvl'], t['f'], t['wt'], t['v'], t['tr']) for t in o['toks']], o['msg'][:400], o['ok'], o['got'])
             if not v['okmatch']:
+                # (same keys as the vector mode: one defect, one key)
                 if v['specok']:
-                    ctx.violation('random:decode:refused:' + ('well-formed-schema-message' if v['wf'] else 'valid'),
-                                  'the specification accepts; ' + what, o)
+                    ctx.violation('decode:refused:' + ('well-formed-schema-message' if v['wf'] else 'valid'),
+                                  '[random] the specification accepts; ' + what, o)
                 else:
-                    ctx.violation('random:decode:accepted:' + v['why'], 'the specification refuses (%s); %s' % (v['why'], what), o)
+                    ctx.violation('decode:accepted:' + v['why'], '[random] the specification refuses (%s); %s' % (v['why'], what), o)
             elif not v['idxmatch']:
-                ctx.violation('random:decode:last-wins', 'a field is not the value of its last token (idx %s); %s' % (o['idx'], what), o)
+                names = ('Cert', 'InitiatorIndex', 'ResponderIndex', 'Time', 'CertVersion')
+                bad = [names[i] for i in range(5) if o['idx'][i] != v['want'][i]]
+                ctx.violation('decode:field:' + bad[0], '[random] %s is not the value of its last token (value of token %s '
+                              'reported, last token is %s); %s' % (bad[0], o['idx'], v['want'], what), o)
             elif not (v['schema'] and v['schemaok']):
                 trouble.append('random well-formed message: the schema decoders disagree although UnmarshalPayload follows '
                                'the specification: %s; %s' % (o.get('schema'), what))
